@@ -1,14 +1,57 @@
 """C06 — grouped aggregation: early emission never emits a group that may still receive rows."""
 LEVEL = "proof"
-VERUS = []
-KANI = [dict(package="datafusion-physical-plan", timeout=2400, harnesses=[
+FP = "datafusion/physical-plan/src/aggregates/order/partial.rs"
+IMPLP = "impl GroupOrderingPartial"
+# R9: diverging macros -> vstd unreached() (requires false: the contract excludes those states); R5: assert! dropped
+# (the following subtraction carries the same obligation as an underflow check)
+DIVERGE = [dict(rule="R9", regex=r'unreachable!\("[^"]*"\)', replace="vstd::pervasive::unreached()", count="any"),
+           dict(rule="R9", regex=r'panic!\("[^"]*"\)', replace="vstd::pervasive::unreached()", count="any"),
+           dict(rule="R5", regex=r"assert!\([^;]*\);", replace="", count="any")]
+VERUS = [dict(
+    name="group_ordering_partial",
+    uses="use vstd::prelude::*;\n",
+    prelude="prelude.rs", proofs="proofs.rs", witness="witness.rs", rlimit=30, min_verified=5, twins=[],
+    global_edits=DIVERGE,
+    items=[
+        dict(file=FP, path=["enum State"]),
+        dict(file=FP, path=["struct GroupOrderingPartial"]),
+        dict(file=FP, path=[IMPLP, "fn emit_to"], wrap=IMPLP, ret="r",
+             contract="""    requires !(self.state is Taken), wf(self.state),
+    ensures
+        self.state is Start ==> r is None,
+        self.state is Complete ==> r == Some(EmitTo::All),
+        // while input is open only the groups before the current sort-key run may go: First(current_sort),
+        // which never includes an open group (current_sort..=current)
+        self.state is InProgress ==> (if self.state->current_sort == 0 { r is None }
+                                      else { r == Some(EmitTo::First(self.state->current_sort)) && self.state->current_sort <= self.state->current }),"""),
+        dict(file=FP, path=[IMPLP, "fn remove_groups"], wrap=IMPLP,
+             contract="""    requires old(self).state is InProgress, wf(old(self).state), n <= old(self).state->current_sort,
+    ensures
+        // renumbering by exactly n; the run stays open with the same sort key
+        final(self).state is InProgress, wf(final(self).state),
+        final(self).state->current_sort == old(self).state->current_sort - n,
+        final(self).state->current == old(self).state->current - n,
+        final(self).state->sort_key == old(self).state->sort_key,
+        final(self).order_indices == old(self).order_indices,"""),
+        dict(file=FP, path=[IMPLP, "fn input_done"], wrap=IMPLP,
+             contract="    requires !(old(self).state is Taken),\n    ensures final(self).state is Complete, final(self).order_indices == old(self).order_indices,"),
+        dict(file=FP, path=[IMPLP, "fn reset"], wrap=IMPLP,
+             contract="    ensures final(self).state is Start, final(self).order_indices == old(self).order_indices,"),
+    ],
+    mutants=[
+        dict(name="emit_current_instead_of_current_sort", item="emit_to", find="Some(EmitTo::First(*current_sort))", replace="Some(EmitTo::First(*current_sort + 1))"),
+        dict(name="remove_groups_forgets_current_sort", item="remove_groups", find="*current_sort -= n;", replace=""),
+        dict(name="input_done_noop", item="input_done", find="_ => State::Complete,", replace="_ => State::Start,"),
+    ],
+)]
+KANI = [dict(package="datafusion-physical-plan", timeout=900, harnesses=[
     dict(name="c06_full_emit_to", module="physical_plan/order_full.rs", complete=True, what="GroupOrderingFull::emit_to over every state: None before input / on the first group, First(current) while in progress (the open group is never included), All only after input_done"),
     dict(name="c06_full_transitions", module="physical_plan/order_full.rs", complete=True, what="new_groups / remove_groups / input_done / reset: current = last group index; remove_groups(n) renumbers by exactly n; after emitting what emit_to allowed the open group is group 0"),
     dict(name="c06_full_illegal_transitions_panic", module="physical_plan/order_full.rs", complete=True, what="remove_groups in Start/Complete, new_groups after Complete and remove_groups(n > current) panic (should_panic)"),
     dict(name="c06_partial_emit_to_and_remove", module="physical_plan/order_partial.rs", complete=True, what="GroupOrderingPartial::emit_to == First(current_sort) (groups with an earlier sort key only), remove_groups shifts current and current_sort by n and keeps current_sort <= current"),
     dict(name="c06_partial_remove_beyond_sort_boundary_panics", module="physical_plan/order_partial.rs", complete=True, what="remove_groups(n > current_sort) panics"),
 ])]
-TRUSTED = ["Kani 0.68 / CBMC 6.11"]
+TRUSTED = ["Kani 0.68 / CBMC 6.11", "Verus 0.2026.09.13 + bundled Z3 for GroupOrderingPartial (rewrites R5, R9: diverging macros -> unreached())"]
 ASSUMPTIONS = ["representation invariant current_sort <= current of GroupOrderingPartial (established by new_groups from Arrow partition ranges; new_groups itself is not verified)",
                "only the early-emission state machines are within reach: hash tables, accumulators, spilling, TopK, partial/final agreement are not verified"]
 NOT_COVERED = ["GroupOrderingPartial::new_groups (arrow_ord::partition, ScalarValue comparison)", "GroupValues / accumulators / streams / spilling / grouped TopK", "agreement between aggregation strategies"]
